@@ -138,6 +138,9 @@ class Run(object):
             seen.add(v.sig)
             reported.append(v)
         os.makedirs(os.path.join(OUT, "replay"), exist_ok=True)
+        for old in os.listdir(os.path.join(OUT, "replay")):       # replay files of earlier runs of this check
+            if old.startswith(self.prop + "-"):
+                os.remove(os.path.join(OUT, "replay", old))
         lines = []
         for v in reported[:20]:
             h = hashlib.sha1((v.sig + json.dumps(v.case, sort_keys=True, default=str)).encode()).hexdigest()[:12]
@@ -146,7 +149,7 @@ class Run(object):
                 json.dump({"property": self.prop, "clause": v.clause, "signature": v.sig, "what": v.what,
                            "case": v.case}, f, indent=1, default=str)
             lines.append("VIOLATION property=%s replay=%s" % (self.prop, path))
-            log("[%s] %s: %s" % (self.prop, v.clause, v.what))
+            log("[%s] %s: %s" % (self.prop, v.clause, v.what[:900]))
         for sig, (k, cnt) in known_hit.items():
             print("KNOWN-FINDING: property=%s %s (%d occurrences this run)" % (self.prop, k.get("what", sig), cnt))
         nviol = len([v for v in self.violations if v.prop == self.prop and
